@@ -327,7 +327,7 @@ fn file_contents(atoms: &Atoms, scn: &Scenario) -> Vec<(String, Vec<u8>)> {
     let mut v = vec![];
     for (si, s) in scn.sessions.iter().enumerate() {
         for f in &s.files {
-            v.push((format!("s{si}:{}", f.label()), atoms.build(&f.word, f.tail)));
+            v.push((format!("s{si}:{}", f.label()), f.bytes(atoms)));
         }
     }
     v
